@@ -279,6 +279,42 @@ MALFORMED = {
 
 
 def run_malformed(res, style, mid, verbose=False):
+    if mid.endswith("+ok"):
+        return run_malformed_then_ok(res, style, mid[:-3], verbose)
+    return run_malformed_single(res, style, mid, verbose)
+
+
+def run_malformed_then_ok(res, style, mid, verbose=False):
+    """The malformed file is the FIRST of two dependency files, the second one is well formed: the command still has
+    to fail (the verdict of an earlier file must not be overwritten by a later one)."""
+    entry = [e for e in MALFORMED[style] if e[0] == mid]
+    _, data, wellformed = entry[0]
+    ok = [e for e in MALFORMED[style] if e[2]][0][1]
+    spec = "C11m|%s|%s+ok" % (style, mid)
+    sb = Sandbox()
+    try:
+        sb.write("p.h", "P0")
+        sb.write("a.h", "A0")
+        c = Cmd("c", [], ["out"], deps=(["deps.d", "ok.d"], style), raw_args=[VDEP, "c", "out", "deps.d", hx(data), "ok.d", hx(ok)])
+        sb.write("build.llbuild", Desc("c11m", [c], {"all": ["out"]}).yaml())
+        rc, out, ran = sb.build("all", "serial")
+        res.count("builds")
+        res.count("evaluations")
+        res.count("malformed_then_wellformed_cases")
+        if verbose:
+            print("%s dependency files [%r (malformed), %r]: build rc=%d executed %r\n%s" % (style, data, ok, rc, ran, out))
+        if ran != ["c"]:
+            raise HarnessError("C11 malformed %s/%s+ok: the command did not run: %r\n%s" % (style, mid, ran, out))
+        res.count("distinct_nontrivial")
+        if rc == 0:
+            res.violate("C11.malformed-deps-accepted-when-followed-by-a-well-formed-file-%s-%s" % (style, mid),
+                        "a command leaving the malformed %s dependency file %r FOLLOWED by a well-formed second one succeeded "
+                        "(build exit 0)" % (style, data), spec)
+    finally:
+        sb.destroy()
+
+
+def run_malformed_single(res, style, mid, verbose=False):
     entry = [e for e in MALFORMED[style] if e[0] == mid]
     if not entry:
         raise HarnessError("unknown malformed case %s/%s" % (style, mid))
@@ -317,8 +353,10 @@ def work_items(tier):
     items = []
     thorough = tier == "thorough"
     for style in ("makefile", "dependency-info"):
-        for mid, _, _ in MALFORMED[style]:
+        for mid, _, wf in MALFORMED[style]:
             items.append(("m", style, mid))
+            if not wf:
+                items.append(("m", style, mid + "+ok"))
     classes = path_classes()   # every class in both tiers (the tiers differ in history length, styles and modes)
     styles = STYLES_THOROUGH if thorough else STYLES_QUICK
     maxlen = 3 if thorough else 2
